@@ -113,7 +113,7 @@ def record(rc, faults=None, order="fifo", rng=None, script=None, silence_from=No
         d.update(residue_counts(rig))
         return d
     rig.residue = residue
-    if rc.get("reann"):
+    if rc.get("reann") and rc["reann"].get("how") != "moved":
         rig.prior_exchange()
     if rc.get("pre"):
         rig.pre_exchange()
